@@ -289,10 +289,14 @@ def root_file(cfg, n):
         path = os.path.join(_ROOT_DIR, f'root-{cfg.name}-{n}')
         h = cfg.cls(path)
         drive(h.open())
-        got = drive(h.connect(0, b''.join(cfg.good[:n])))
+        try:
+            got = drive(h.connect(0, b''.join(cfg.good[:n])))
+            if got == n:
+                drive(h.close())
+        except Exception:   # noqa - the tree under test cannot store the good prefix; judged by the plain replay
+            got = None
         if got != n:
             raise StoreFailed()
-        drive(h.close())
         _ROOT_FILES[key] = path
     return _ROOT_FILES[key]
 
@@ -430,11 +434,16 @@ def replay_history(cfg, history, res, judge_last_only=True, rep=None, via_root_f
             path = root_file(cfg, first[2])
         except StoreFailed:          # the tree under test refuses the good prefix: plain replay shows (and judges) that
             path = None
+    h = None
     if path:
-        h = cfg.cls(path)
-        drive(h.open())
-        if len(h) < first[2] or bytes(h.io.getbuffer())[:first[2] * HS] != b''.join(cfg.good[:first[2]]):
-            raise RuntimeError('root file does not hold the stored prefix')
+        try:
+            h = cfg.cls(path)
+            drive(h.open())
+            if len(h) < first[2] or bytes(h.io.getbuffer())[:first[2] * HS] != b''.join(cfg.good[:first[2]]):
+                h = None             # the tree under test does not reload what it stored: judged by the plain replay
+        except Exception:   # noqa
+            h = None
+    if h is not None:
         end = first[2]
         log.append(f'{first} stored once by open/connect/close, loaded here by open() from that file: len={len(h)}')
         start_at = 1
@@ -489,11 +498,14 @@ def bfs_multi(ctx, plan):
         root = spec['root']
         h, end, _, ok = replay_history(cfg, root, res, rep={'part': 'a', 'config': spec['cfg'], 'history': root},
                                        via_root_file=False)
-        if ok and root and root[0][2] >= ROOT_PREFIX_MIN:
+        if root and root[0][2] >= ROOT_PREFIX_MIN:
             try:
                 root_file(cfg, root[0][2])            # written here, before the pool forks; workers only read it
             except StoreFailed:
                 pass
+            # the key the workers will reproduce (they load the root from the file)
+            from vf.core import Result
+            h, end, _, _ = replay_history(cfg, root, Result())
         key = canon(h, end)
         res.distinct_add('states', (spec['cfg'], key))
         state[(run_name, N)] = dict(seen={key}, frontier=[(root, key)], deepest=root, depth=depth)
@@ -1131,8 +1143,11 @@ def session_bfs(ctx, srun, N, depth, every_byte, rich):
             if not frontier:
                 break
         # crash images of the last session of every distinct state
-        groups = chunked(states, max(1, len(states) // (4 * ctx.jobs) + 1))
-        items = [(srun, g, every_byte) for g in groups]
+        # every byte of the file for the first (shallowest) 300 states, 4 offsets per header beyond
+        items = []
+        for part, eb in ((states[:300], every_byte), (states[300:], False)):
+            if part:
+                items += [(srun, g, eb) for g in chunked(part, max(1, len(part) // (4 * ctx.jobs) + 1))]
         for part in (pool.map(_crash_sessions, items, 1) if pool else [_crash_sessions(it) for it in items]):
             res.merge(part)
     finally:
@@ -1250,7 +1265,8 @@ def run(ctx):
         nstates, ntrans, deepest = session_bfs(ctx, srun, N, depth, every_byte=not q, rich=not q)
         bounds[f'sessions_{srun}'] = {'window': N, 'sessions': depth + len(SESSION_RUNS[srun]['setup']),
                                       'session_kinds': len(session_kinds(srun, N, not q)), 'states': nstates,
-                                      'transitions': ntrans, 'crash_cuts': 'every byte' if not q else '4 per header'}
+                                      'transitions': ntrans,
+                                      'crash_cuts': '4 offsets per header' if q else 'every byte (first 300 states), 4 per header beyond'}
         if deepest:
             cfg = Config.get(RUNS[SESSION_RUNS[srun]['run']]['cfg'])
             logs = [replay_sessions(cfg, deepest, None, Result()) for _ in range(2)]
